@@ -132,3 +132,12 @@ package section
 //@ func Split(fset, filename, content) (prog, err)
 //@   requires fset != nil
 //@   assigns nothing
+
+// The scratch buffer of a section and, per line, where it starts in the buffer and where it came from.
+//@ func ToBytes(s) (src, lines)
+//@   requires forall i int {s[i]} :: 0 <= i && i < len(s) ==> s[i] != nil
+//@   assigns allof("E.parse_section_LinePos"), allof("E.pgo_augment_PosAdjustment")
+//@   ensures [C19] one-entry-per-line: len(lines) == len(s)
+//@   loop 0
+//@     invariant len(lines) == #k
+//@     invariant lines.arr == 0 || fresh(lines.arr)
